@@ -206,7 +206,7 @@ def _new_record(crate, path):
     v = adts.get(path)
     if v and len(v) == 1 and v[0].get('name') == path.split('::')[-1] and v[0].get('fields') and not str(v[0]['fields'][0]).isdigit() and _local_adt(crate, path):
         import inline
-        kn = inline.known().get(('bin' if getattr(crate, 'is_bin', False) else 'lib') + '_adts')
+        kn = inline.known().get(inline.ref_kind(crate.j) + '_adts')
         if kn is not None and path not in kn and path.split('::')[-1] not in {k.split('::')[-1] for k in kn}:
             ok = True
             # ... unless it is a reference struct under a new name (one that is missing now and has the same field types)
@@ -1166,5 +1166,6 @@ def load_crates(dirpath, info):
     out = {}
     for f in info['files']:
         j = json.load(open(os.path.join(dirpath, f['name'])))
+        j['_kind'] = f['kind']
         out[f['kind']] = Crate(j)
     return out
